@@ -245,6 +245,15 @@ def rule_e(ctx):
                                                  'rsocket.queue_peekable'], 'connection and stream state')
 
 
+def rule_small_publishers(ctx):
+    """EmptyStream / ErrorStream answer a request(n) with their one terminal signal and say nothing at subscribe()
+    (shared C06.e): a channel requester subscribes its publisher before it queues REQUEST_CHANNEL, so a terminal
+    signal at subscribe() would be sent ahead of the request, be dropped by the peer as an unknown stream, and leave the
+    responder's half of the channel open for ever."""
+    from .sources import rule_small_sources
+    rule_small_sources(ctx, 'C06.e')
+
+
 def rule_no_subscriber(ctx):
     """A channel endpoint whose application gives it no subscriber has nobody to deliver the inbound direction to:
     `subscribe(None)` must count that direction as complete on every path, otherwise the stream needs the peer's
@@ -292,4 +301,4 @@ def rule_no_subscriber(ctx):
                 'requester and responder mark different flags (%s)' % sorted(inbound_seen))
 
 
-RULES = [('C10.a', rule_a), ('C10.b', rule_b), ('C10.c', rule_c), ('C05.a', rule_order), ('C03.c', rule_d), ('C10.d', rule_e), ('C10.a', rule_no_subscriber)]
+RULES = [('C10.a', rule_a), ('C10.b', rule_b), ('C10.c', rule_c), ('C05.a', rule_order), ('C03.c', rule_d), ('C10.d', rule_e), ('C10.a', rule_no_subscriber), ('C06.e', rule_small_publishers)]
